@@ -16,7 +16,20 @@ func (p path) appendIndex(o jsonObject, metadata []Metadata) path {
 		meta = append(meta, jsonString(sk.string()))
 	}
 	p = append(p, meta)
-	// Append index.
+	// Append index. With set keys the index is made of the key
+	// fields only: other fields may change and must not be part
+	// of the member's identity.
+	if sk != nil {
+		key := newJsonObject()
+		for k := range sk.keys {
+			if v, ok := o[k]; ok {
+				key[k] = v
+			}
+		}
+		if len(key) > 0 {
+			return append(p, key)
+		}
+	}
 	return append(p, o)
 }
 
